@@ -285,3 +285,6 @@ Proof.
   - discriminate.
 Qed.
 
+
+Lemma core_eq_if_ph : forall c c2 (b : bool) f, core_eq c c2 -> core_eq c (if b then set_aq_ph f c2 else c2).
+Proof. intros c c2 b f H. destruct b; auto. Qed.
